@@ -1393,3 +1393,167 @@ def signal_stage():
 
 
 ALL.append(signal_stage)
+
+
+# ----------------------------------------------------------------------------- ContinueParentStage
+def _cps_extra(I):
+    return {}
+
+
+def _cps_setup(ctx):
+    I = ctx.I
+    rec = I.st.objs[ctx.extra["handler"].oid]
+    rec.fields["txn_helper"] = I.construct(I.index.find_class("TransactionHelper"), [rec.fields["repository"], rec.fields["queue"]], {})
+
+
+def _every_commit_continues(kinds):
+    def check(ctx):
+        goals = []
+        for t in P.committed_txns(ctx):
+            if not P._has_write(t):
+                continue
+            ps = [b for e in t.effects for b, _ in T.flat([e]) if b.kind == "push"]
+            goals.append((f"txn{t.tid}.pushes", z3.BoolVal(bool(ps) and all(p.data["cls"] in kinds or p.data["cls"].startswith("Invalid") for p in ps))))
+        return goals
+    return check
+
+
+def continue_parent_stage():
+    obls = [
+        Obl("C05/T2/ContinueParentStage", _every_commit_continues(("CompleteStage", "StartTask", "StartStage")), when="any"),
+        Obl("C05/T2b/ContinueParentStage", P.no_push_after_commit, when="any"),
+        Obl("C01/T1/ContinueParentStage", P.t1_processed_with_effects(), when="any"),
+        Obl("C02/T1/ContinueParentStage", P.t1_processed_with_effects(), when="any"),
+        Obl("C09/T1/ContinueParentStage", P.t1_processed_with_effects(), when="any"),
+        Obl("C01/T6/ContinueParentStage", P.t6_single_commit(), when="any"),
+        Obl("C01/T7/ContinueParentStage", P.t7_no_split, when="any"),
+        Obl("C06/T3/ContinueParentStage", P.t3_legal_write(), when="any"),
+        Obl("C06/stage-never-redirect/ContinueParentStage", P.stage_status_never_redirect, when="any"),
+    ]
+    return handler_unit("*", "L2/ContinueParentStage", H + "continue_parent_stage:ContinueParentStageHandler", "ContinueParentStage", obls,
+                        registry=run_task_registry(), setup=_cps_setup)
+
+
+ALL.append(continue_parent_stage)
+
+
+# ----------------------------------------------------------------------------- StartWorkflow / CompleteWorkflow
+def workflow_registry():
+    from pyvc.values import SBool, fresh_bool
+
+    reg = run_task_registry()
+    reg.contracts["*._should_queue"] = lambda I, a, k: SBool(fresh_bool("should_queue"))
+    reg.contracts["stabilize.audit:audit"] = lambda I, a, k: SNone
+    reg.contracts["stabilize.models.workflow:Workflow.cleanup"] = lambda I, a, k: SNone  # breaks reference cycles only
+    T.install_recorder(reg)
+    reg.methods[("EventRecorder", "record_workflow_created")] = reg.methods[("EventRecorder", "record_workflow_started")]
+    return reg
+
+
+def _exec_guard(names, negate=False):
+    def check(ctx):
+        I = ctx.I
+        ex = loaded_execution(ctx)
+        if ex is None:
+            return []
+        lds = T.loaded_info(I, ex)["status"].t
+        acts = [e for e, _ in T.flat(ctx.st.effects) if e.kind in ("update_workflow", "store_stage", "event", "standalone", "queue_push")
+                or (e.kind == "push" and not e.data["cls"].startswith("Invalid"))]
+        if not acts:
+            return []
+        g = in_set(lds, I, names)
+        return [("", z3.Not(g) if negate else g)]
+    return check
+
+
+def _start_workflow_t2(ctx):
+    """T2: the commit that sets the workflow RUNNING pushes StartStage for every initial top-level stage."""
+    I = ctx.I
+    ex = loaded_execution(ctx)
+    goals = []
+    for t in P.committed_txns(ctx):
+        ups = [e for e in t.effects if e.kind == "update_workflow"]
+        if not ups or not z3.is_true(z3.simplify(ups[0].data["status"].t == status(I, "RUNNING"))):
+            continue
+        stages = I.getattr(ex, "stages")
+        fe = [e for e in t.effects if e.kind == "foreach" and e.data["lid"] == stages.lid]
+        goals.append((f"txn{t.tid}.pushes-start-stages", z3.BoolVal(bool(fe) and all(b.kind == "push" and b.data["cls"] == "StartStage" for e in fe for b in e.data["body"]))))
+        j = fresh_int("sj")
+        n = I.ops.list_len(stages)
+        top = z3.Select(I._elem_array(stages.lid, "parent_stage_id?", z3.BoolSort()), j)
+        req = I.elem_field(SElem(stages.lid, (j,)), "requisite_stage_ref_ids", ("set", ("str",)))
+        initial = I.ops.list_len(req) == 0
+        covered = z3.Or(*[z3.And(j < e.data["hi"], z3.substitute(e.data["cond"], (e.data["g"], j))) for e in fe]) if fe else FALSE
+        goals.append((f"txn{t.tid}.every-initial-stage", z3.Implies(z3.And(j >= 0, j < n, top, initial), covered)))
+    return goals
+
+
+def start_workflow():
+    obls = [
+        Obl("C10/absorb/StartWorkflow", _exec_guard(("NOT_STARTED",)), when="any"),
+        Obl("C02/guard/StartWorkflow", _exec_guard(("NOT_STARTED",)), when="any"),
+        Obl("C05/T2/StartWorkflow", _start_workflow_t2, when="any"),
+        Obl("C01/T1/StartWorkflow", P.t1_processed_with_effects(), when="any"),
+        Obl("C09/T1/StartWorkflow", P.t1_processed_with_effects(), when="any"),
+        Obl("C01/T6/StartWorkflow", P.t6_single_commit(), when="any"),
+        Obl("C01/T7/StartWorkflow", P.t7_no_split, when="any"),
+        Obl("C06/T3/StartWorkflow", P.t3_legal_write(), when="any"),
+    ]
+    return handler_unit("*", "L2/StartWorkflow", H + "start_workflow:StartWorkflowHandler", "StartWorkflow", obls, registry=workflow_registry())
+
+
+def _complete_workflow_post(ctx):
+    """C05/C17: the commit that ends the workflow stores a complete status; when that status is not SUCCEEDED the same
+    commit pushes CancelStage for every top-level stage loaded RUNNING; a not-ready workflow is never silently dropped:
+    either a CompleteWorkflow with retry_count + 1 is re-queued or (retry budget exhausted) the workflow goes TERMINAL."""
+    I = ctx.I
+    ex = loaded_execution(ctx)
+    if ex is None or ctx.exc is not None:
+        return []
+    msg = ctx.extra["message"]
+    lds = T.loaded_info(I, ex)["status"].t
+    goals = []
+    ups = [(t, e) for t in P.committed_txns(ctx) for e in t.effects if e.kind == "update_workflow"]
+    requeues = [e for e in ctx.st.effects if e.kind == "queue_push" and e.data["cls"] == "CompleteWorkflow"]
+    if not ups:
+        if requeues:
+            r = requeues[0]
+            rc = I.getattr(msg, "retry_count")
+            rct = z3.If(I.ops.truthy(rc), I.ops.as_int(rc), 0)
+            goals.append(("requeue-increments-retry", I.ops.as_int(I.getattr(r.data["msg"], "retry_count")) == rct + 1))
+            goals.append(("requeue-same-execution", I.ops.eq(I.getattr(r.data["msg"], "execution_id"), I.getattr(msg, "execution_id"))))
+        else:
+            goals.append(("silent-only-when-already-complete", is_complete(I, lds)))
+        return goals
+    t, u = ups[0]
+    stt = u.data["status"].t
+    goals.append(("final-status-complete", is_complete(I, stt)))
+    goals.append(("was-not-complete", z3.Not(is_complete(I, lds))))
+    stages = I.getattr(ex, "stages")
+    fe = [e for e in t.effects if e.kind == "foreach" and e.data["lid"] == stages.lid
+          and any(b.kind == "push" and b.data["cls"] == "CancelStage" for b in e.data["body"])]
+    j = fresh_int("sj")
+    n = I.ops.list_len(stages)
+    sarr = I._elem_array(stages.lid, "status", I.typer.sort_of(("enum", WS)))
+    top = z3.Select(I._elem_array(stages.lid, "parent_stage_id?", z3.BoolSort()), j)
+    covered = z3.Or(*[z3.And(j < e.data["hi"], z3.substitute(e.data["cond"], (e.data["g"], j))) for e in fe]) if fe else FALSE
+    goals.append(("cancels-running-stages-when-not-succeeded",
+                  z3.Implies(z3.And(stt != status(I, "SUCCEEDED"), j >= 0, j < n, top, z3.Select(sarr, j) == status(I, "RUNNING")), covered)))
+    return goals
+
+
+def complete_workflow():
+    obls = [
+        Obl("C05/complete-workflow", _complete_workflow_post, when="any"),
+        Obl("C17/final/CompleteWorkflow", _complete_workflow_post, when="any"),
+        Obl("C02/guard/CompleteWorkflow", _exec_guard(COMPLETE, negate=True), when="any"),
+        Obl("C01/T1/CompleteWorkflow", P.t1_processed_with_effects(), when="any"),
+        Obl("C09/T1/CompleteWorkflow", P.t1_processed_with_effects(), when="any"),
+        Obl("C01/T6/CompleteWorkflow", P.t6_single_commit(), when="any"),
+        Obl("C01/T7/CompleteWorkflow", P.t7_no_split, when="any"),
+        Obl("C06/T3/CompleteWorkflow", P.t3_legal_write(), when="any"),
+    ]
+    return handler_unit("*", "L2/CompleteWorkflow", H + "complete_workflow:CompleteWorkflowHandler", "CompleteWorkflow", obls, registry=workflow_registry())
+
+
+ALL += [start_workflow, complete_workflow]
